@@ -46,5 +46,8 @@ func (r reader) ReadHeader() (h FormatHeader, err error) {
 		return
 	}
 	h.Type, err = r.ReadUint64()
+	if err == io.EOF {
+		err = io.ErrUnexpectedEOF
+	}
 	return
 }
